@@ -18,6 +18,7 @@ Two switches follow the code as it is NOW (see DESIGN.md section 5):
 -/
 import AskarModel.Model.Store
 import AskarModel.Model.Spec
+import AskarModel.Generated.Flags
 
 namespace Askar.KeyStore
 open Askar.Wql Askar.Store
@@ -29,10 +30,10 @@ def cryptoKey : String := "cryptokey"
 
 /-- Does `fetch_all_keys` insert the `user:` prefix after a leading `~` of a filter name?
     Follows the code: no — `k.replace_range(0..0, "user:")` (defect D6).  Flip after the repair. -/
-def prefixAfterTilde : Bool := false
+def prefixAfterTilde : Bool := Askar.Generated.Flags.keyFilterPrefixAfterTilde
 
 /-- Does `from_jwk_any` import symmetric (`kty = oct`) JWKs?  Follows the code: no (defect D15). -/
-def symmetricJwkImport : Bool := false
+def symmetricJwkImport : Bool := Askar.Generated.Flags.jwkOctImport
 
 /-! ### Strings: the `user:` prefix -/
 
